@@ -5,8 +5,12 @@ V = os.path.dirname(os.path.dirname(os.path.abspath(__file__)))
 checks = json.load(open(os.path.join(V, "checks.json")))
 claims = json.load(open(os.path.join(V, "tools", "claims.json")))
 import glob
+# parts written by helpers are only claimed once reviewed and listed in tools/ready.json
+ready = set(json.load(open(os.path.join(V, "tools", "ready.json"))))
 for f in sorted(glob.glob(os.path.join(V, "tools", "parts", "*.check.json"))):
-    checks.update(json.load(open(f)))
+    for k, v in json.load(open(f)).items():
+        if k in ready:
+            checks[k] = v
 for f in sorted(glob.glob(os.path.join(V, "tools", "parts", "*.claim.json"))):
     claims.update(json.load(open(f)))
 props = [json.loads(l) for l in open(os.path.join(V, "properties.jsonl"))]
